@@ -6,7 +6,8 @@ EXPLANATION = ("Decides on the MIR of the current tree: algebraic laws of Arc's 
                "on-last-drop edges (Y1 Arc rows), the writers of the reference count (K4) and the front-end wiring (A1r): the last-handle "
                "bookkeeping runs only when the count reached zero / get_mut succeeded, clone increments before cloning, get_mut/try_unwrap hand "
                "out the value only when the modelled count is one, from_raw resolves its object through the registry, increment/"
-               "decrement_strong_count are balanced. Equality of returned counts with a reference model per interleaving is not decided.")
+               "decrement_strong_count are balanced. Equality of returned counts with a reference model per interleaving is not decided."
+               " Recency selection between dependent slots uses a marker maintained by set_last_access, not happens-before (T6); the dependence lookup consults no other object state (T7); G0/G1 cross-check reference counting.")
 RULE_TEXT = "rule instances = dependence-table cells, edges, counter writers, front-end guards; non-trivial when matched to concrete MIR sites"
 LEVEL_NOTE = "necessary conditions only"
 WITNESSES = ['C11ArcGetMutNeedsMut']
